@@ -8,14 +8,74 @@ from core import Raw, sx  # noqa: F401
 
 ID = "C13"
 READY = True
-LEAN_MODULES = ["RedunModel.Model.Promise"]
+LEAN_MODULES = ["RedunModel.Props.C13"]
 LEAN_DRIVERS = ["C13"]
-THEOREMS = []
-TRUSTED = []
-ASSUMPTIONS = []
-RULE = ""
-LEVEL_TEXT = ""
-LEVEL_NOTE = ""
+THEOREMS = [
+    "RedunModel.C13.settle_once",
+    "RedunModel.C13.first_wins",
+    "RedunModel.C13.settle_pending",
+    "RedunModel.C13.first_wins_op",
+    "RedunModel.C13.then_registers",
+    "RedunModel.C13.invoked_only_as_settled",
+    "RedunModel.C13.not_before_settlement",
+    "RedunModel.C13.other_branch_never",
+    "RedunModel.C13.at_most_once",
+    "RedunModel.C13.exactly_once",
+    "RedunModel.C13.never_lost",
+    "RedunModel.C13.settled_lists_empty",
+    "RedunModel.C13.all_fulfills",
+    "RedunModel.C13.all_rejects",
+    "RedunModel.C13.all_pending",
+    "RedunModel.C13.wait_fulfills",
+    "RedunModel.C13.wait_pending",
+    "RedunModel.Promise.Reach.execAll",
+]
+THEOREMS += [
+    "RedunModel.C13.order_refuted_witness",
+    "RedunModel.C13.order_refuted_registered_during_notification",
+]
+TRUSTED = [
+    "modelled, not verified: Python's synchronous call/return discipline (every call frame of do_resolve/_notify/then/"
+    "wrapper/all/wait_promises that can be suspended by a nested call is a frame of the model's explicit stack; one "
+    "model step = the code between two such calls), try/except Exception in wrap_callback.wrapper and Promise.__init__, "
+    "list append/clear/rebinding, closures of Promise.all (results, num_done) and wait_promises (num_done)",
+    "user callbacks are scripts: a finite list of then/do_resolve/do_reject/Promise()/Promise.all/wait_promises statements "
+    "(on any promise, nested to any depth) followed by return <value> | return <argument> | return <promise> | raise; "
+    "bound methods p.do_resolve/p.do_reject can be passed as callbacks. Other Python side effects of callbacks are outside the model",
+    "ghost data of the model (registration numbers, origins of promises, the invoke/direct/adopt events) does not "
+    "influence behaviour; the driver prints only what Python can observe (callback log, promise states, list lengths)",
+]
+ASSUMPTIONS = [
+    "single thread (the class is documented as single-thread); no BaseException (KeyboardInterrupt) inside callbacks",
+    "recursion depth is not exhausted: histories in which a promise's value chain is cyclic (a promise settled, as a "
+    "plain value, with itself and then adopted) make the real code recurse until RecursionError; the model runs out of "
+    "fuel there and the case is dropped (counted as truncated_at_divergence)",
+    "actions only name promises that exist (the generator tracks the number of promises created so far)",
+    "Promise.all / wait_promises specification theorems assume user code does not call do_resolve/do_reject on the promise "
+    "they returned (hypothesis `Event.direct r.target not in s.log`); the oracle skips those cases the same way",
+]
+RULE = ("histories = sequences of top-level operations (Promise(), Promise(func), then/catch with scripted callbacks or bound "
+        "methods or None, do_resolve/do_reject with ints/None/exceptions/lists/promises, Promise.all, wait_promises) run on "
+        "the real redun.promise and on the Lean model; after every operation the user-callback log (function id, argument), "
+        "every promise's state/value and the lengths of _resolvers/_rejectors are compared line by line. Streams: fixed corpus, "
+        "all sequences up to length 3 (quick) / 4 (thorough) over a 13-operation alphabet on two promises, random histories up "
+        "to 25 operations with scripts nested to depth 3. distinct = distinct operation sequences; non-trivial = at least one "
+        "user callback ran or a collector was created")
+LEVEL_TEXT = ("Lean theorems over ALL histories (any operation sequence, any nesting of re-entrant calls, any interleaving of "
+              "machine steps; no bound): full strength — settle_once (a settled promise keeps branch and value forever), "
+              "first_wins/first_wins_op/settle_pending (a second settlement is a no-op, the first takes effect), "
+              "exactly_once + at_most_once + never_lost + not_before_settlement + other_branch_never + invoked_only_as_settled "
+              "(every then() registration: the callback of the matching branch runs exactly once, only after settlement, with "
+              "the promise's value; the other one never), all_fulfills/all_rejects/all_pending (Promise.all: results in input "
+              "order iff all inputs fulfilled, else rejected with the first rejection its fail callback observed, else pending), "
+              "wait_fulfills/wait_pending. Refuted on the current code (proved counter-example, also replayed on the real code "
+              "on every run): order_refuted_registered_during_notification — 'in registration order' fails when then() is called "
+              "on a promise from inside one of its own callbacks. Tie to the code: differential run of model driver vs real "
+              "class on generated histories + the property's oracle on the real class.")
+LEVEL_NOTE = ("The model is hand-written; callbacks are scripts, so arbitrary Python in a callback is outside it. Termination is "
+              "not claimed (a promise resolved with itself and adopted diverges in the code as in the model): exactly_once is "
+              "stated for states in which nothing is running. RecursionError/KeyboardInterrupt and multi-threaded use cannot be "
+              "exhibited by the model.")
 TECHNIQUE = "Lean 4 invariant proofs over a small-step machine + differential op-sequence testing against redun.promise"
 
 SIG_ORDER_KNOWN = "C13-order-then-during-notification"
